@@ -111,6 +111,8 @@ def run_step(root, do_step, step, fault=None, config_path=None, pool_seed=0, tim
             out["fired"] = m["fired"]
         if "outcome" in m:
             out["outcome"] = m["outcome"]
+    if code < 0 and out["outcome"] is None:
+        out["outcome"] = {"exc": f"ProcessDiedSignal{-code}", "msg": "the system's process died from a signal", "where": []}
     if code == 3:
         raise RuntimeError(f"HARNESS-NONDETERMINISM: planned fault label differs: {out['fired']}")
     return out
@@ -148,12 +150,12 @@ def place_fault(rng, events, eligible, kinds=("kill", "io_error", "torn")):
     k = occ[0] if u < 0.2 else occ[-1] if u < 0.4 else rng.choice(occ)
     lab = events[k]
     op = lab.split(":", 1)[0]
-    ks = [x for x in kinds if x != "torn" or op in ("write", "tofile")]
+    ks = [x for x in kinds if x not in ("torn", "corrupt") or op in ("write", "tofile")]
     if op.startswith("enter") or op.startswith("exit"):
         ks = [x for x in ks if x == "kill"] or ["kill"]
     kind = rng.choice(ks)
     f = {"kind": kind, "at": k, "label": lab}
-    if kind == "torn":
+    if kind in ("torn", "corrupt"):
         f["tear"] = rng.choice([0.01, 0.25, 0.5, 0.75, 0.99, round(rng.random(), 3)])
     if kind == "io_error":
         f["errno"] = rng.choice([28, 5])  # ENOSPC, EIO
